@@ -15,6 +15,14 @@ M = [
     ('run_parallel-remainder', 'panqec/cli.py', '            n_runs += trials % n_tasks_per_input', '            n_runs += trials % n_tasks', ['C14']),
     ('effective-swap', 'panqec/bpauli.py', '    effective_Z = bs_prod(logicals_x, total_error)\n    effective_X = bs_prod(logicals_z, total_error)', '    effective_Z = bs_prod(logicals_z, total_error)\n    effective_X = bs_prod(logicals_x, total_error)', ['C04']),
     ('x_indices-block', 'panqec/codes/base/_stabilizer_code.py', '            Hx = self.stabilizer_matrix[:, :self.n]\n            self._x_indices', '            Hx = self.stabilizer_matrix[:, self.n:]\n            self._x_indices', ['C02']),
+    ('to_bsf-y-only-x', 'panqec/codes/base/_stabilizer_code.py', "            if operator[qubit_location] in ['Y', 'Z']:\n                bsf_operator[self.n + self.qubit_index[qubit_location]] += 1", "            if operator[qubit_location] in ['Z']:\n                bsf_operator[self.n + self.qubit_index[qubit_location]] += 1", ['C02']),
+    ('error_probability-px-mask', 'panqec/error_models/_base_error_model.py', "        prob_vector += px * np.logical_and(error[:code.n],\n                                           np.logical_not(error[code.n:]))", "        prob_vector += px * np.logical_and(error[:code.n],\n                                           error[:code.n])", ['C18']),
+    ('error_probability-sum-not-prod', 'panqec/error_models/_base_error_model.py', "            prob = np.prod(prob_vector)", "            prob = np.sum(prob_vector)", ['C18']),
+    ('batch-run-guard', 'panqec/simulation/_batch_simulation.py', "                if simulation.n_results < n_trials:\n                    simulation.run(1)", "                if simulation.n_results <= n_trials:\n                    simulation.run(1)", ['C12']),
+    ('batch-last-save', 'panqec/simulation/_batch_simulation.py', "            if i_trial == n_trials - 1:\n                self.on_update(n_trials)\n                self.save_results()", "            if i_trial == n_trials:\n                self.on_update(n_trials)\n                self.save_results()", ['C12']),
+    ('toric2d-xzzx-axis', 'panqec/codes/surface_2d/_toric_2d_code.py', "            if self.qubit_axis(location) == deformation_axis:\n                deformation = deformed_dict", "            if self.qubit_axis(location) != deformation_axis:\n                deformation = deformed_dict", ['C08']),
+    ('toric2d-xy-map', 'panqec/codes/surface_2d/_toric_2d_code.py', "            deformation = {'X': 'X', 'Y': 'Z', 'Z': 'Y'}", "            deformation = {'X': 'Y', 'Y': 'X', 'Z': 'Z'}", ['C08']),
+    ('bs_prod-dense-one-term', 'panqec/bpauli.py', "    commutes = (a_X.dot(b_Z.T) + a_Z.dot(b_X.T))\n", "    commutes = (a_X.dot(b_Z.T) + a_Z.dot(b_Z.T))\n", ['C03']),
     ('run_once-syndrome-of-correction', 'panqec/simulation/_direct_simulation.py', 'correction = decoder.decode(syndrome)', 'correction = decoder.decode(syndrome.copy() * 0 + syndrome)', ['C11']),
 ]
 flt = sys.argv[1] if len(sys.argv) > 1 else ''
